@@ -13,5 +13,9 @@ def put(s, tag, body):
     return s[: s.index(b) + len(b)] + "\n" + body + "\n" + s[s.index(e):]
 s = put(s, "SEEDED_TABLE", table(["tools/seeded.py", "table"]))
 s = put(s, "STATUS_TABLE", table(["tools/status.py"]))
+if os.path.exists(os.path.join(V, "audit", "mutants", "results.jsonl")):
+    s = put(s, "MUTATION_TABLE", table(["tools/mutate.py", "table"]))
+if os.path.exists(os.path.join(V, "audit", "refactors", "results.json")):
+    s = put(s, "REFACTOR_TABLE", table(["tools/refactors.py", "table"]))
 open(p, "w").write(s)
 print("DESIGN.md tables refreshed")
